@@ -112,7 +112,7 @@ func (p *propC10) Gen(idx int) *Scenario {
 	sc := &Scenario{V: 1, Property: "C10", Engine: "rx", Seed: p.seed, Index: idx, Params: map[string]string{}}
 	pick := func() poolEntry {
 		// bias to small entries so big corpus files do not dominate cost
-		for k := 0; k < 4; k++ {
+		for k := 0; k < 12; k++ {
 			e := p.pool[r.Intn(len(p.pool))]
 			if len(e.Bytes) < 20000 || r.Chance(1, 6) {
 				return e
@@ -124,6 +124,9 @@ func (p *propC10) Gen(idx int) *Scenario {
 	nfr := 1
 	if layout == 5 {
 		nfr = r.Range(2, 4)
+		if r.Chance(1, 40) {
+			nfr = r.Range(17, 40) // long chains (anything sized for "a few" files)
+		}
 	}
 	var ids []string
 	for i := 0; i < nfr; i++ {
